@@ -371,6 +371,41 @@ func (e *Engine) analyzeCFG(fr *frame) []*ssa.BasicBlock {
 	for _, li := range fr.loops {
 		e.findGhostCalls(fr, li)
 	}
+	// second DFS: leave loops last, so that in reverse post-order the body of a loop
+	// precedes the code after the loop (assumptions made after the loop then do not
+	// burden the obligations of the body)
+	if len(fr.loops) > 0 {
+		state2 := map[*ssa.BasicBlock]int{}
+		var post2 []*ssa.BasicBlock
+		var dfs2 func(b *ssa.BasicBlock)
+		dfs2 = func(b *ssa.BasicBlock) {
+			state2[b] = 1
+			inner := e.innermost(fr, b)
+			var first, second []*ssa.BasicBlock
+			for _, s := range b.Succs {
+				if fr.back[[2]int{b.Index, s.Index}] {
+					continue
+				}
+				if inner != nil && !inner.blocks[s] {
+					first = append(first, s) // exits of the loop: visit first, finish first, appear last
+				} else {
+					second = append(second, s)
+				}
+			}
+			for _, s := range append(first, second...) {
+				if state2[s] == 0 {
+					dfs2(s)
+				}
+			}
+			state2[b] = 2
+			post2 = append(post2, b)
+		}
+		dfs2(fn.Blocks[0])
+		order = order[:0]
+		for i := len(post2) - 1; i >= 0; i-- {
+			order = append(order, post2[i])
+		}
+	}
 	return order
 }
 
